@@ -13,6 +13,7 @@ import (
 
 	"github.com/oasisprotocol/curve25519-voi/curve/scalar"
 	"github.com/oasisprotocol/curve25519-voi/zzverif/entropy"
+	"github.com/oasisprotocol/curve25519-voi/zzverif/fluent"
 	"github.com/oasisprotocol/curve25519-voi/zzverif/gen"
 	"github.com/oasisprotocol/curve25519-voi/zzverif/hist"
 	"github.com/oasisprotocol/curve25519-voi/zzverif/mon"
@@ -492,6 +493,10 @@ func concurrentScalars(r *mon.Run, c Case) {
 }
 
 func runCase(r *mon.Run, c Case) {
+	if c.Kind == "fluent" {
+		fluentCheck(r)
+		return
+	}
 	if c.Kind == "entropy" {
 		entropyCase(r, c)
 		return
@@ -667,5 +672,12 @@ func main() {
 	for i := 0; i < r.Pick(6, 60); i++ {
 		entropyCase(r, Case{Kind: "entropy", Stream: fmt.Sprintf("c05/entropy/%d", i)})
 	}
+	fluentCheck(r)
 	r.Finish()
+}
+
+// fluentCheck: every "sets the receiver and returns it" method of this property's types must return its receiver
+// (package fluent).
+func fluentCheck(r *mon.Run) {
+	fluent.Check(r, Case{Kind: "fluent"}, (*scalar.Scalar)(nil))
 }
